@@ -191,9 +191,35 @@ func init() {
 			still := err == nil && string(out) != k.ReplayStr("expected")
 			c.R.AddKnown(k.ID, still, k.What, string(out))
 		}
+		// ---- fixed regression corpus: the inputs of the repaired findings K-C16-1..4; must pass ----
+		stf := c.R.StartStage("fixed", "inputs of the findings repaired in /repo (44fae7b KeepEndTags, c5a4469 KeepDefaultAttrVals/input, 2252d4e property shorthand, 292d477 js Restore) with the expected bytes; non-trivial = an option is set")
+		for _, f := range c16Fixed {
+			cfg := c16ParseCfg(f[0], f[1])
+			out, err := c16Run(cfg, []byte(f[2]), "")
+			stf.Count(cfg.String()+" "+f[2], true)
+			if err != nil || string(out) != f[3] {
+				c.R.Add(h.Finding{Stage: stf.Name, Kind: "fail", What: f[0] + " " + f[1] + " is not honoured (regression of a repaired finding): expected " + h.Q([]byte(f[3])), Input: h.Q([]byte(f[2])), Hex: h.HexS(f[2]), Config: cfg.String(), Impl: h.Q(out)})
+			}
+		}
+		stf.End()
 		c16Honoured(c, open)
 		return nil
 	})
+}
+
+// kind, options, input, expected output
+var c16Fixed = [][4]string{
+	{"html", "KeepEndTags", `<body class="a"><p>x</p></body>`, `<body class=a><p>x</p></body>`},
+	{"html", "KeepEndTags", `<table><colgroup span="2"></colgroup><tr><td>a</td></tr></table>`, `<table><colgroup span=2></colgroup><tr><td>a</td></tr></table>`},
+	{"html", "KeepEndTags", `<html lang=en><head id=h></head><body><p>x</body></html>`, `<html lang=en><head id=h></head><p>x</html>`},
+	{"html", "KeepDefaultAttrVals", `<input type="text" value="">`, `<input type=text value>`},
+	{"html", "KeepDefaultAttrVals", `<input type="radio" value="on">`, `<input type=radio value=on>`},
+	{"html", "", `<input type="text" value="">`, `<input>`},
+	{"html", "KeepQuotes", `<img onclick="f()" onload='g(1)'>`, `<img onclick="f()" onload='g(1)'>`},
+	{"js", "Version=5", `x={a:a,b:b}`, `x={a:a,b:b}`},
+	{"js", "Version=2014", `x={a:a,b:b}`, `x={a:a,b:b}`},
+	{"js", "Version=2015", `x={a:a,b:b}`, `x={a,b}`},
+	{"js", "", `x={a:a,b:b}`, `x={a,b}`},
 }
 
 // c16Cfg is one option setting of one minifier
